@@ -289,6 +289,15 @@ Theorem C14_collected_keys_sorted : collected_keys_are_sorted = true.
 Proof. exact collected_keys_sorted. Qed.
 Print Assumptions C14_collected_keys_sorted.
 
+(* ---- every classification row cites a permutation lemma about a Gallina function that models THAT loop body
+   (model/CmpbOrder.v: copy_fields, warn_unused, log_children, lint_all, first_unresolved, range_entries,
+   find_file_by_path, first_member, child_ignores_options, add_absent, list_fields, next to ensure_all, include_io,
+   options_for, field_options, map_entries, load); here each of the former "generic lemma" rows' model functions is RUN
+   on two iteration orders of the same collection (the orders differ, the observable part of the result does not) *)
+Theorem C14_order_site_probes : loop_probes_statement.
+Proof. exact loop_probes_compute. Qed.
+Print Assumptions C14_order_site_probes.
+
 (* ---- the generated file's import list depends only on the SET of files passed to ensureImport *)
 Theorem C14_imports_order_irrelevant : forall c1 c2, (forall x, In x c1 <-> In x c2) -> ensure_all c1 = ensure_all c2.
 Proof. exact ensure_all_set_invariant. Qed.
